@@ -146,6 +146,8 @@ fn main() {
             let mut bad = 0u64;
             let mut total = 0u64;
             for fam in dst::families::ALL_FAMILIES {
+                // (the long-history families take seconds and hundreds of MB per run: a handful of seeds)
+                let n = if matches!(fam, Family::C06L | Family::C20L) { n.min(4) } else { n };
                 let d1 = dst::batch::digests(*fam, seed, n, threads, false);
                 let d2 = dst::batch::digests(*fam, seed, n, if threads > 1 { 1.max(threads / 4) } else { 1 }, true);
                 for i in 0..n as usize {
